@@ -727,3 +727,27 @@ func specFirstFar(s *PFCPSession, j int, id uint32) bool {
 //@   ensures C14.upd.count: len(*endMarkerList) == old[int](len(*endMarkerList)) || len(*endMarkerList) == old[int](len(*endMarkerList))+1
 //@   ensures C14.upd.oldtunnel: old[bool](specFirstFar(s, j, f.farID)) && len(*endMarkerList) == old[int](len(*endMarkerList))+1 ==> specIsEndMarker(at(*endMarkerList, hi(*endMarkerList)-1), old[uint32](at(s.fars, j).tunnelIP4Src), old[uint32](at(s.fars, j).tunnelIP4Dst), old[uint32](at(s.fars, j).tunnelTEID)) && !allocated(at(*endMarkerList, hi(*endMarkerList)-1))
 //@   loop 1 invariant C14.upd.l1: rangeidx+1 <= len(s.fars) && (forall i int :: lo(s.fars) <= i && i < lo(s.fars)+rangeidx+1 ==> at(s.fars, i).farID != f.farID)
+
+// ---------------------------------------------------------------------------
+// C12: retransmission, response matching, heartbeat
+// ---------------------------------------------------------------------------
+
+// Ghost log "wait": one entry per wait for a response (field wait.dur: the time-out used).
+//@ func (r *Request) GetResponse(done <-chan struct{}, respDuration time.Duration) (reply message.Message, timeout bool)
+//@   trusted
+//@   appends wait
+//@   ensures gfield("wait.dur", gentry("wait", glen("wait")-1)) == uint64(respDuration)
+//@   ensures timeout ==> reply == nil
+
+//@ func (pConn *PFCPConn) sendPFCPRequestMessage(r *Request) (reply message.Message, timeout bool)
+//@   requires connInv(pConn) && r != nil && r.msg != nil
+//@   ensures C12.tx.bound: glen("pfcpout") <= old[int](glen("pfcpout"))+1+int(pConn.upf.maxReqRetries) && glen("pfcpout") >= old[int](glen("pfcpout"))+1
+//@   ensures C12.tx.same: forall e int :: old[int](glen("pfcpout")) <= e && e < glen("pfcpout") ==> gfield("pfcpout.msg", gentry("pfcpout", e)) == uint64(dynRef(r.msg))
+//@   ensures C12.tx.dead: timeout ==> reply == nil && glen("pfcpout") == old[int](glen("pfcpout"))+1+int(pConn.upf.maxReqRetries) && glen("wait") == old[int](glen("wait"))+1+int(pConn.upf.maxReqRetries)
+//@   ensures C12.tx.stop: !timeout ==> glen("pfcpout")-old[int](glen("pfcpout")) == glen("wait")-old[int](glen("wait"))
+//@   ensures C12.tx.spacing: forall e int :: old[int](glen("wait")) <= e && e < glen("wait") ==> gfield("wait.dur", gentry("wait", e)) == uint64(pConn.upf.respTimeout)
+//@   ensures C12.tx.pending: smHas(&pConn.pendingReqs, specMsgSeq(r.msg)) && smIs(&pConn.pendingReqs, specMsgSeq(r.msg), r) && smGet(&pConn.pendingReqs, specMsgSeq(r.msg), r) == r
+//@   loop 1 invariant C12.tx.l.count: retriesLeft <= pConn.upf.maxReqRetries && glen("pfcpout") == old[int](glen("pfcpout"))+1+int(pConn.upf.maxReqRetries-retriesLeft) && glen("wait") == old[int](glen("wait"))+int(pConn.upf.maxReqRetries-retriesLeft)
+//@   loop 1 invariant C12.tx.l.same: forall e int :: old[int](glen("pfcpout")) <= e && e < glen("pfcpout") ==> gfield("pfcpout.msg", gentry("pfcpout", e)) == uint64(dynRef(r.msg))
+//@   loop 1 invariant C12.tx.l.spacing: forall e int :: old[int](glen("wait")) <= e && e < glen("wait") ==> gfield("wait.dur", gentry("wait", e)) == uint64(pConn.upf.respTimeout)
+//@   loop 1 invariant C12.tx.l.pending: smHas(&pConn.pendingReqs, specMsgSeq(r.msg)) && smIs(&pConn.pendingReqs, specMsgSeq(r.msg), r) && smGet(&pConn.pendingReqs, specMsgSeq(r.msg), r) == r
